@@ -2,6 +2,7 @@
 obligations and ghost logs."""
 import hashlib
 import os
+import sys
 import subprocess
 import tempfile
 import time
@@ -20,6 +21,83 @@ class PathEnd(Exception):
 
     def __init__(self, reason="end"):
         self.reason = reason
+
+
+class ForkCtl:
+    """fork-based depth-first exploration (opt-in per task): at a new decision the alternatives are explored by forked
+    children that continue from the *current* interpreter state (no re-execution of the prefix); the processes run strictly one
+    at a time (the parent waits), sharing the closure set and the results through append-only files."""
+
+    def __init__(self):
+        self.enabled = False
+        self.depth = 0
+        self.max_depth = 150
+        self.is_child = False
+        self.dir = None
+        self.on_child = []         # callbacks run in a fresh child
+        self.seen_sets = {}
+
+    def start(self, directory):
+        self.enabled, self.dir, self.depth, self.is_child = True, directory, 0, False
+        os.makedirs(directory, exist_ok=True)
+
+    def append(self, name, data: bytes):
+        fd = os.open(os.path.join(self.dir, name), os.O_WRONLY | os.O_CREAT | os.O_APPEND, 0o600)
+        try:
+            os.write(fd, data)
+        finally:
+            os.close(fd)
+
+    def after_child(self):
+        for s in self.seen_sets.values():
+            s.sync()
+
+
+FORK = ForkCtl()
+
+
+class SeenSet:
+    """closure set; under fork mode it is backed by an append-only file of 20-byte digests"""
+
+    def __init__(self, name):
+        self.name, self.mem, self.offset = name, set(), 0
+
+    def __contains__(self, k):
+        return k in self.mem
+
+    def __len__(self):
+        return len(self.mem)
+
+    def add(self, k):
+        self.mem.add(k)
+        if FORK.enabled:
+            assert len(k) == 20
+            FORK.append("seen-" + self.name, k)
+
+    def sync(self):
+        if not FORK.enabled:
+            return
+        p = os.path.join(FORK.dir, "seen-" + self.name)
+        if not os.path.exists(p):
+            return
+        with open(p, "rb") as f:
+            f.seek(self.offset)
+            data = f.read()
+        n = len(data) // 20
+        for i in range(n):
+            self.mem.add(data[20 * i:20 * i + 20])
+        self.offset += 20 * n
+
+
+def seen_set(name):
+    name = "".join(c if c.isalnum() else "_" for c in name)
+    if name not in FORK.seen_sets:
+        FORK.seen_sets[name] = SeenSet(name)
+    return FORK.seen_sets[name]
+
+
+class ChildFailed(Exception):
+    pass
 
 
 class Choice:
@@ -41,7 +119,24 @@ class Choice:
         else:
             k = feas[0]
             for j in feas[1:]:
-                self.alts.append(self.trace + [j])
+                if not FORK.enabled or FORK.depth >= FORK.max_depth:
+                    self.alts.append(self.trace + [j])
+                    continue
+                sys.stdout.flush()
+                sys.stderr.flush()
+                pid = os.fork()
+                if pid == 0:
+                    FORK.depth += 1
+                    FORK.is_child = True
+                    self.alts = []
+                    for cb in FORK.on_child:
+                        cb()
+                    k = j
+                    break
+                _, status = os.waitpid(pid, 0)
+                if status != 0:
+                    raise ChildFailed(f"exploration child exited with status {status}")
+                FORK.after_child()
         self.i += 1
         self.trace.append(k)
         return k
